@@ -1220,6 +1220,8 @@ func (x *zzC07Log) checkPayload(r *zzC07Reply, anon bool, where func(id int) str
 
 // ---------------------------------------------------------------- direction A
 
+// zzC07Step is one labelled step: the action, its arguments and the spec's
+// admissible destination states (ids into the state table).
 type zzC07Step struct {
 	Act  string
 	Args map[string]any
@@ -1251,26 +1253,49 @@ func (s zzC07Step) MarshalJSON() (b []byte, err error) {
 	return json.Marshal([]any{s.Act, s.Args, s.Dsts})
 }
 
+// zzC07Walk is an explicit walk: used for reproduction and for --replay.
 type zzC07Walk struct {
 	ID    int         `json:"id"`
 	Init  int         `json:"init"`
 	Steps []zzC07Step `json:"steps"`
-	// Probe, if set, makes the walk a replay: no observation tables, only
-	// this query (or, if ProbeState, the projection) after the last step.
+	// Probe, if set: after the last step ask this one query.  ProbeState:
+	// compare the projection after the last step.
 	Probe      *zzC07Q `json:"probe,omitempty"`
 	ProbeState bool    `json:"probe_state,omitempty"`
 }
 
-type zzC07Input struct {
-	kinds  []struct{ Name, Cli, Reason string }
-	states map[int]*zzC07StateRow
-	walks  []*zzC07Walk
+// zzC07Group is the set of edges TLC emitted for one (source, action,
+// arguments): more than one destination where the spec is nondeterministic.
+type zzC07Group struct {
+	Src  int            `json:"src"`
+	Act  string         `json:"act"`
+	Args map[string]any `json:"args"`
+	Dsts []int          `json:"dsts"`
+
+	covered bool
+	self    bool
+}
+
+type zzC07Cfg struct {
+	Budget  int   `json:"budget"`  // total number of steps; 0 = until everything is covered
+	WalkLen int   `json:"walklen"` // maximal number of steps of one walk
+	Inits   []int `json:"inits"`
+	Workers int   `json:"workers"`
 }
 
 type zzC07StateRow struct {
 	ID  int        `json:"id"`
 	St  zzC07State `json:"st"`
 	Obs []*zzC07Q  `json:"obs"`
+}
+
+type zzC07Input struct {
+	kinds  []struct{ Name, Cli, Reason string }
+	states map[int]*zzC07StateRow
+	walks  []*zzC07Walk
+	groups []*zzC07Group
+	out    map[int][]*zzC07Group
+	cfg    zzC07Cfg
 }
 
 type zzC07Out struct {
@@ -1297,16 +1322,15 @@ func zzC07ArgBool(a map[string]any, k string) (v bool) {
 	return v
 }
 
-// shapeFor picks the payload shape of a record of the given reason.
+// zzC07ShapeFor picks the payload shape of a record of the given reason.
 func zzC07ShapeFor(rng *rand.Rand, reason string) (i int) {
 	idx := zzC07ShapesOf(reason)
 
 	return idx[rng.Intn(len(idx))]
 }
 
-// step performs one labelled action of the spec on the real object.  next is
-// the action that follows in the walk ("" if none).
-func (x *zzC07Log) step(in *zzC07Input, st *zzC07Step, next string) (err error) {
+// step performs one labelled action of the spec on the real object.
+func (x *zzC07Log) step(in *zzC07Input, st *zzC07Step) (err error) {
 	ctx := context.Background()
 	switch st.Act {
 	case "rec":
@@ -1332,6 +1356,7 @@ func (x *zzC07Log) step(in *zzC07Input, st *zzC07Step, next string) (err error) 
 
 		x.batchIDs = x.ids(ts)
 	case "app":
+		// Second half of flushLogBuffer.
 		if !x.held {
 			return fmt.Errorf("app without enc")
 		}
@@ -1391,6 +1416,11 @@ func (x *zzC07Log) close() {
 	x.waitFlush()
 }
 
+func (x *zzC07Log) cleanup() {
+	x.close()
+	_ = os.RemoveAll(x.dir)
+}
+
 func (x *zzC07Log) where(id int) (s string) {
 	t := x.exact[id]
 	for _, v := range x.ringTimes() {
@@ -1416,152 +1446,112 @@ type zzC07Harness struct {
 	base string
 	seed int64
 
-	mu                                        sync.Mutex
-	steps, queries, bad, flaky, discards, nts int
+	mu   sync.Mutex // guards everything below and the groups' covered flags
+	dead map[int]bool
+	rng  *rand.Rand
+
+	steps, queries, bad, flaky, discards, walks, coveredN, transit, unobservable int
+	actCov                                                                        map[string]int
 }
 
-// runWalk executes w up to and including step upto (all steps if upto < 0).
-// With observe it compares projection and observation table after every step;
-// otherwise it only drives.  It returns the real object for probing.
-func (h *zzC07Harness) runWalk(w *zzC07Walk, upto int, observe bool, tag string) (x *zzC07Log, cur int, done int) {
+// zzC07Run is one walk on one real object.
+type zzC07Run struct {
+	h     *zzC07Harness
+	x     *zzC07Log
+	id    int
+	init  int
+	cur   int
+	steps []zzC07Step // executed so far, each with the destination actually reached
+}
+
+func (h *zzC07Harness) newRun(id, init int) (r *zzC07Run) {
 	dir, err := os.MkdirTemp(h.base, "w")
 	if err != nil {
 		h.t.Fatalf("tempdir: %v", err)
 	}
 
-	x = zzC07NewLog(dir, h.seed*1000003+int64(w.ID))
-	init := h.in.states[w.Init]
-	err = x.open(init.St.Ms, init.St.Fe, init.St.En, init.St.An)
-	if err != nil {
+	x := zzC07NewLog(dir, h.seed*1000003+int64(id))
+	st := h.in.states[init].St
+	if err = x.open(st.Ms, st.Fe, st.En, st.An); err != nil {
 		h.t.Fatalf("opening query log: %v", err)
 	}
 
-	cur = w.Init
-	fused := false
-	for i := range w.Steps {
-		if upto >= 0 && i > upto {
-			break
-		}
+	return &zzC07Run{h: h, x: x, id: id, init: init, cur: init}
+}
 
-		st := w.Steps[i]
-		next := ""
-		if i+1 < len(w.Steps) && (upto < 0 || i+1 <= upto) {
-			next = w.Steps[i+1].Act
-		}
+// do executes st and matches the projection with one of the admissible
+// destinations.  status: "ok" (r.cur updated), "unobservable" (r.cur set to
+// the single destination without comparison), "mismatch", "error", "discard".
+func (r *zzC07Run) do(st zzC07Step) (status string, got zzC07State) {
+	h := r.h
+	err := r.x.step(h.in, &st)
+	if err != nil {
+		h.out.put(map[string]any{"kind": "harness_error", "walk": r.id, "step": len(r.steps), "act": st.Act, "err": err.Error()})
 
-		run := st
-		switch {
-		case fused:
-			// The previous enc already did both halves.
-			fused = false
-			run.Act = "noop"
-		case st.Act == "enc" && next == "app" && x.rng.Intn(2) == 0 && len(x.ringTimes()) > 0:
-			fused = true
-			run.Act = "flush"
-		}
+		return "error", got
+	}
 
-		if run.Act != "noop" {
-			err = x.step(h.in, &run, next)
-		}
+	if r.x.discard != "" {
+		return "discard", got
+	}
 
-		done = i + 1
-		if err != nil {
-			h.out.put(map[string]any{"kind": "harness_error", "walk": w.ID, "step": i, "act": st.Act, "err": err.Error(), "tag": tag})
+	if st.Act == "rec" && len(st.Dsts) == 1 && h.in.states[st.Dsts[0]].St.Fp && !r.x.held {
+		// The automatic flush runs in its own goroutine: the state between
+		// Add and its completion cannot be sampled.  The autoflush step that
+		// must follow waits for it and compares.
+		r.cur = st.Dsts[0]
+		r.steps = append(r.steps, zzC07Step{Act: st.Act, Args: st.Args, Dsts: []int{r.cur}})
 
-			return x, cur, done
-		}
+		return "unobservable", got
+	}
 
-		if x.discard != "" {
-			return x, cur, done
-		}
+	got, err = r.x.project(h.in.states[r.cur].St.Pal)
+	if err != nil {
+		h.out.put(map[string]any{"kind": "harness_error", "walk": r.id, "step": len(r.steps), "act": st.Act, "err": err.Error()})
 
-		if fused {
-			// State between the halves is not observable for a fused flush.
-			cur = st.Dsts[0]
+		return "error", got
+	}
 
-			continue
-		}
+	for _, d := range st.Dsts {
+		if reflect.DeepEqual(h.in.states[d].St, got) {
+			r.cur = d
+			r.steps = append(r.steps, zzC07Step{Act: st.Act, Args: st.Args, Dsts: []int{d}})
 
-		got, perr := x.project(h.in.states[cur].St.Pal)
-		if perr != nil {
-			h.out.put(map[string]any{"kind": "harness_error", "walk": w.ID, "step": i, "act": st.Act, "err": perr.Error(), "tag": tag})
-
-			return x, cur, done
-		}
-
-		if st.Act == "rec" && h.in.states[st.Dsts[0]].St.Fp && !x.held {
-			// The automatic flush runs in its own goroutine: the state between
-			// Add and its completion cannot be sampled reliably.  The
-			// following autoflush step waits for it and compares.
-			cur = st.Dsts[0]
-
-			continue
-		}
-
-		match := -1
-		for j, d := range st.Dsts {
-			if reflect.DeepEqual(h.in.states[d].St, got) {
-				match = j
-
-				break
-			}
-		}
-
-		if match < 0 {
-			if observe {
-				h.reportState(w, i, cur, &got, tag)
-			}
-
-			return x, -1, done
-		}
-
-		cur = st.Dsts[match]
-		if match != 0 && observe {
-			h.out.put(map[string]any{"kind": "divert", "walk": w.ID, "step": i, "act": st.Act, "took": cur, "from": h.in.states[cur].St})
-
-			return x, cur, done
-		}
-
-		if observe {
-			h.observe(w, i, x, h.in.states[cur])
+			return "ok", got
 		}
 	}
 
-	return x, cur, done
+	return "mismatch", got
 }
 
-func (h *zzC07Harness) prefix(w *zzC07Walk, i int) (p *zzC07Walk) {
-	return &zzC07Walk{ID: w.ID, Init: w.Init, Steps: w.Steps[:i+1]}
+func (r *zzC07Run) asWalk() (w *zzC07Walk) {
+	return &zzC07Walk{ID: r.id, Init: r.init, Steps: append([]zzC07Step{}, r.steps...)}
 }
 
-// reportState reproduces a projection mismatch on a fresh object before
-// reporting it.
-func (h *zzC07Harness) reportState(w *zzC07Walk, i, src int, got *zzC07State, tag string) {
-	x2, cur2, _ := h.runWalk(w, i, false, "repro")
-	defer x2.cleanup()
-
-	kind := "bad"
-	if cur2 >= 0 || x2.discard != "" {
-		kind = "flaky"
+// statesOf collects the state records a replay of w needs.
+func (h *zzC07Harness) statesOf(w *zzC07Walk) (m map[string]zzC07State) {
+	m = map[string]zzC07State{strconv.Itoa(w.Init): h.in.states[w.Init].St}
+	for _, s := range w.Steps {
+		for _, d := range s.Dsts {
+			m[strconv.Itoa(d)] = h.in.states[d].St
+		}
 	}
 
-	h.count(kind)
-	want := []zzC07State{}
-	for _, d := range w.Steps[i].Dsts {
-		want = append(want, h.in.states[d].St)
-	}
-
-	p := h.prefix(w, i)
-	p.ProbeState = true
-	h.out.put(map[string]any{
-		"kind": kind, "what": "state", "walk": p, "step": i, "act": w.Steps[i].Act, "args": w.Steps[i].Args,
-		"src": h.in.states[src].St, "want": want, "got": got, "init": h.in.states[w.Init].St,
-	})
+	return m
 }
 
-func (x *zzC07Log) cleanup() {
-	x.close()
-	_ = os.RemoveAll(x.dir)
+// replayWalk drives an explicit walk on a fresh object without observing.
+func (h *zzC07Harness) replayWalk(w *zzC07Walk) (r *zzC07Run, status string, got zzC07State) {
+	r = h.newRun(w.ID, w.Init)
+	status = "ok"
+	for _, st := range w.Steps {
+		status, got = r.do(st)
+		if status != "ok" && status != "unobservable" {
+			return r, status, got
+		}
+	}
+
+	return r, status, got
 }
 
 func (h *zzC07Harness) count(kind string) {
@@ -1576,70 +1566,293 @@ func (h *zzC07Harness) count(kind string) {
 	}
 }
 
-// observe puts the observation table of state row to the real handler.
-func (h *zzC07Harness) observe(w *zzC07Walk, i int, x *zzC07Log, row *zzC07StateRow) {
-	for qi, q := range row.Obs {
-		r := x.search(q)
-		if qi == 0 && r.St == "ok" {
-			// The first row is the full unfiltered listing: payloads.
-			for _, d := range x.checkPayload(&r, row.St.An, x.where) {
-				d2 := h.reproPayload(w, i, d)
-				h.out.put(d2)
-			}
-		}
-
-		if zzC07Admissible(q, &r) {
-			continue
-		}
-
-		h.reportQuery(w, i, row, q, &r)
-	}
-}
-
-func (h *zzC07Harness) reproPayload(w *zzC07Walk, i int, d map[string]any) (out map[string]any) {
-	// Payload differences are deterministic functions of the shape; the
-	// dedicated payload test re-derives them in isolation.  Report as is.
-	h.count("bad")
-	d["what"] = "payload"
-	d["walk_id"] = w.ID
-	d["step"] = i
-	if d["kind"] == "differential" || d["kind"] == "input" {
-		d["pkind"] = d["kind"]
-	}
-
-	d["kind"] = "bad"
-
-	return d
-}
-
-// reportQuery re-runs the prefix of the walk on a fresh object and asks the
-// one query again; only a reproduced disagreement is reported as bad.
-func (h *zzC07Harness) reportQuery(w *zzC07Walk, i int, row *zzC07StateRow, q *zzC07Q, r *zzC07Reply) {
-	x2, cur2, _ := h.runWalk(w, i, false, "repro")
-	defer x2.cleanup()
+// reportState reproduces a projection mismatch on a fresh object before
+// reporting it.  w is the walk up to the step before, st the failing step.
+func (h *zzC07Harness) reportState(w *zzC07Walk, st zzC07Step, got *zzC07State) {
+	full := &zzC07Walk{ID: w.ID, Init: w.Init, Steps: append(append([]zzC07Step{}, w.Steps...), st), ProbeState: true}
+	r2, status2, got2 := h.replayWalk(full)
+	defer r2.x.cleanup()
 
 	kind := "bad"
-	var r2 zzC07Reply
-	if cur2 != row.ID || x2.discard != "" {
+	if status2 != "mismatch" {
+		kind = "flaky"
+	}
+
+	h.count(kind)
+	want := []zzC07State{}
+	for _, d := range st.Dsts {
+		want = append(want, h.in.states[d].St)
+	}
+
+	src := w.Init
+	if n := len(w.Steps); n > 0 {
+		src = w.Steps[n-1].Dsts[0]
+	}
+
+	h.out.put(map[string]any{
+		"kind": kind, "what": "state", "walk": full, "states": h.statesOf(full), "act": st.Act, "args": st.Args,
+		"src": h.in.states[src].St, "want": want, "got": got, "got2": got2, "status2": status2,
+	})
+}
+
+// reportQuery re-runs the walk on a fresh object and asks the one query
+// again; only a reproduced disagreement is reported as bad.
+func (h *zzC07Harness) reportQuery(w *zzC07Walk, row *zzC07StateRow, q *zzC07Q, r *zzC07Reply) {
+	r2, status2, _ := h.replayWalk(w)
+	defer r2.x.cleanup()
+
+	kind := "bad"
+	var rep2 zzC07Reply
+	if (status2 != "ok" && len(w.Steps) > 0) || r2.cur != row.ID {
 		kind = "flaky"
 	} else {
-		r2 = x2.search(q)
-		if zzC07Admissible(q, &r2) {
+		rep2 = r2.x.search(q)
+		if zzC07Admissible(q, &rep2) {
 			kind = "flaky"
 		}
 	}
 
 	h.count(kind)
-	p := h.prefix(w, i)
-	p.Probe = q
+	p := &zzC07Walk{ID: w.ID, Init: w.Init, Steps: w.Steps, Probe: q}
+	act := "init"
+	if n := len(w.Steps); n > 0 {
+		act = w.Steps[n-1].Act
+	}
+
 	h.out.put(map[string]any{
-		"kind": kind, "what": "query", "walk": p, "step": i, "act": w.Steps[i].Act, "state": row.St,
-		"q": q, "got": r, "got2": r2, "init": h.in.states[w.Init].St,
+		"kind": kind, "what": "query", "walk": p, "states": h.statesOf(p), "act": act, "state": row.St,
+		"q": q, "got": r, "got2": rep2,
 	})
 }
 
+// observe puts the observation table of the current state to the real
+// handler.  lite: only the unfiltered full listing (with the payload
+// comparison) and the default request.
+func (r *zzC07Run) observe(lite bool) {
+	h := r.h
+	row := h.in.states[r.cur]
+	for qi, q := range row.Obs {
+		if lite && qi > 1 {
+			break
+		}
+
+		rep := r.x.search(q)
+		if qi == 0 && rep.St == "ok" {
+			// The first row is the full unfiltered listing: payloads.
+			for _, d := range r.x.checkPayload(&rep, row.St.An, r.x.where) {
+				h.count("bad")
+				d["what"], d["pkind"], d["kind"], d["walk_id"] = "payload", d["kind"], "bad", r.id
+				h.out.put(d)
+			}
+		}
+
+		if zzC07Admissible(q, &rep) {
+			continue
+		}
+
+		h.reportQuery(r.asWalk(), row, q, &rep)
+	}
+}
+
+// ---- planning
+
+var zzC07ActPrio = map[string]int{
+	"conf": 1, "enc": 2, "app": 2, "autoflush": 0, "rotate": 2, "restart": 2, "rec": 3, "clear": 4,
+}
+
+// pick chooses the next group to take from state v: an uncovered one if there
+// is any (self-loops first, then by action class, seeded choice within the
+// class), else the first step of a shortest path to a state that has one.
+// It returns nil when nothing uncovered is reachable.  h.mu must be held.
+func (h *zzC07Harness) pick(v int) (g *zzC07Group, covering bool) {
+	best, bestP := []*zzC07Group{}, 1 << 30
+	for _, c := range h.in.out[v] {
+		if c.covered {
+			continue
+		}
+
+		p := 10 * zzC07ActPrio[c.Act]
+		if c.self {
+			p = -1
+		}
+
+		if p < bestP {
+			best, bestP = best[:0], p
+		}
+
+		if p == bestP {
+			best = append(best, c)
+		}
+	}
+
+	if len(best) > 0 {
+		return best[h.rng.Intn(len(best))], true
+	}
+
+	// Breadth-first search for the nearest state with an uncovered group.
+	type node struct {
+		v     int
+		first *zzC07Group
+	}
+
+	seen := map[int]bool{v: true}
+	queue := []node{{v: v}}
+	for len(queue) > 0 {
+		n := queue[0]
+		queue = queue[1:]
+		for _, c := range h.in.out[n.v] {
+			d := c.Dsts[0]
+			if seen[d] || h.dead[d] {
+				continue
+			}
+
+			seen[d] = true
+			first := n.first
+			if first == nil {
+				first = c
+			}
+
+			for _, c2 := range h.in.out[d] {
+				if !c2.covered {
+					return first, false
+				}
+			}
+
+			queue = append(queue, node{v: d, first: first})
+		}
+	}
+
+	// Coverage only grows: nothing uncovered will ever be reachable from here.
+	for d := range seen {
+		h.dead[d] = true
+	}
+
+	return nil, false
+}
+
+// worker runs walks until nothing is left to cover or the budget is used up.
+func (h *zzC07Harness) worker(wid int) {
+	cfg := &h.in.cfg
+	for {
+		h.mu.Lock()
+		if cfg.Budget > 0 && h.steps >= cfg.Budget {
+			h.mu.Unlock()
+
+			return
+		}
+
+		init := -1
+		for _, k := range h.rng.Perm(len(cfg.Inits)) {
+			i := cfg.Inits[k]
+			if h.dead[i] {
+				continue
+			}
+
+			if g, _ := h.pick(i); g != nil {
+				init = i
+
+				break
+			}
+		}
+
+		h.walks++
+		id := h.walks
+		h.mu.Unlock()
+		if init < 0 {
+			return
+		}
+
+		h.oneWalk(id, init)
+	}
+}
+
+func (h *zzC07Harness) oneWalk(id, init int) {
+	cfg := &h.in.cfg
+	r := h.newRun(id, init)
+	defer func() { r.x.cleanup() }()
+
+	// The initial state is observed as well.
+	r.observe(false)
+	for n := 0; n < cfg.WalkLen; n++ {
+		h.mu.Lock()
+		if cfg.Budget > 0 && h.steps >= cfg.Budget {
+			h.mu.Unlock()
+
+			break
+		}
+
+		g, covering := h.pick(r.cur)
+		fuse := false
+		var g2 *zzC07Group
+		if g != nil {
+			if covering {
+				g.covered = true
+				h.coveredN++
+				h.actCov[g.Act]++
+			} else {
+				h.transit++
+			}
+
+			// An explicit flush whose halves follow each other directly is
+			// sometimes taken through the real flushLogBuffer.
+			if g.Act == "enc" && !g.self && h.rng.Intn(3) == 0 {
+				for _, c := range h.in.out[g.Dsts[0]] {
+					if c.Act == "app" {
+						g2, fuse = c, true
+						if !c.covered {
+							c.covered = true
+							h.coveredN++
+							h.actCov[c.Act]++
+						}
+					}
+				}
+			}
+
+			h.steps++
+		}
+		h.mu.Unlock()
+
+		if g == nil {
+			break
+		}
+
+		st := zzC07Step{Act: g.Act, Args: g.Args, Dsts: g.Dsts}
+		if fuse {
+			st = zzC07Step{Act: "flush", Args: g.Args, Dsts: g2.Dsts}
+		}
+
+		before := r.asWalk()
+		status, got := r.do(st)
+		switch status {
+		case "ok":
+			r.observe(!covering)
+		case "unobservable":
+			h.mu.Lock()
+			h.unobservable++
+			h.mu.Unlock()
+		case "mismatch":
+			h.reportState(before, st, &got)
+
+			return
+		case "discard":
+			h.mu.Lock()
+			h.discards++
+			h.mu.Unlock()
+			h.out.put(map[string]any{"kind": "discard", "walk": id, "why": r.x.discard})
+
+			return
+		default:
+			return
+		}
+	}
+
+	h.mu.Lock()
+	h.queries += r.x.queries
+	h.mu.Unlock()
+}
+
 func zzC07Load(t *testing.T) (in *zzC07Input) {
-	in = &zzC07Input{states: map[int]*zzC07StateRow{}}
+	in = &zzC07Input{states: map[int]*zzC07StateRow{}, out: map[int][]*zzC07Group{}}
 	zzReadNDJSON(t, "VERIF_IN", func(line []byte) {
 		var k struct {
 			K string `json:"k"`
@@ -1681,6 +1894,10 @@ func zzC07Load(t *testing.T) (in *zzC07Input) {
 				}
 			}
 
+			if len(tab.Terms) != len(zzC07Terms) {
+				t.Fatalf("term table has %d terms, the harness %d", len(tab.Terms), len(zzC07Terms))
+			}
+
 			for _, kd := range tab.Kinds {
 				if _, ok := zzC07Names[kd.Name]; !ok {
 					t.Fatalf("unknown name %q", kd.Name)
@@ -1701,6 +1918,19 @@ func zzC07Load(t *testing.T) (in *zzC07Input) {
 			}
 
 			in.states[row.ID] = row
+		case "g":
+			g := &zzC07Group{}
+			if err := json.Unmarshal(line, g); err != nil {
+				t.Fatalf("bad group line: %v", err)
+			}
+
+			g.self = len(g.Dsts) == 1 && g.Dsts[0] == g.Src
+			in.groups = append(in.groups, g)
+			in.out[g.Src] = append(in.out[g.Src], g)
+		case "c":
+			if err := json.Unmarshal(line, &in.cfg); err != nil {
+				t.Fatalf("bad config line: %v", err)
+			}
 		case "w":
 			w := &zzC07Walk{}
 			if err := json.Unmarshal(line, w); err != nil {
@@ -1735,76 +1965,62 @@ func TestZZVerifC07Walk(t *testing.T) {
 	w := zzNewWriter(t, "VERIF_OUT")
 	defer w.close()
 
-	h := &zzC07Harness{t: t, in: in, out: &zzC07Out{w: w}, base: t.TempDir(), seed: zzSeed()}
-	workers, _ := strconv.Atoi(zzGetenv("VERIF_WORKERS"))
-	if workers < 1 {
-		workers = 4
+	h := &zzC07Harness{
+		t: t, in: in, out: &zzC07Out{w: w}, base: t.TempDir(), seed: zzSeed(),
+		dead: map[int]bool{}, rng: rand.New(rand.NewSource(zzSeed())), actCov: map[string]int{},
 	}
 
-	ch := make(chan *zzC07Walk)
-	wg := &sync.WaitGroup{}
-	for range workers {
-		wg.Add(1)
-		go func() {
-			defer wg.Done()
-
-			for wk := range ch {
-				h.doWalk(wk)
-			}
-		}()
-	}
-
+	// Explicit walks (replay of a stored disagreement).
 	for _, wk := range in.walks {
-		ch <- wk
+		h.doProbe(wk)
 	}
 
-	close(ch)
-	wg.Wait()
+	if len(in.groups) > 0 {
+		if in.cfg.WalkLen <= 0 {
+			in.cfg.WalkLen = 40
+		}
+
+		workers := in.cfg.Workers
+		if workers < 1 {
+			workers = 4
+		}
+
+		wg := &sync.WaitGroup{}
+		for i := range workers {
+			wg.Add(1)
+			go func() {
+				defer wg.Done()
+
+				h.worker(i)
+			}()
+		}
+
+		wg.Wait()
+	}
 
 	h.out.put(map[string]any{
-		"kind": "summary", "walks": len(in.walks), "steps": h.steps, "queries": h.queries, "bad": h.bad,
-		"flaky": h.flaky, "discards": h.discards,
+		"kind": "summary", "walks": h.walks, "steps": h.steps, "queries": h.queries, "bad": h.bad,
+		"flaky": h.flaky, "discards": h.discards, "groups": len(in.groups), "covered": h.coveredN,
+		"transit": h.transit, "unobservable": h.unobservable, "by_act": h.actCov,
 	})
 }
 
-func (h *zzC07Harness) doWalk(wk *zzC07Walk) {
-	if wk.Probe != nil || wk.ProbeState {
-		h.doProbe(wk)
-
-		return
-	}
-
-	x, cur, done := h.runWalk(wk, -1, true, "walk")
-	defer x.cleanup()
-
-	h.mu.Lock()
-	h.steps += done
-	h.queries += x.queries
-	if x.discard != "" {
-		h.discards++
-	}
-	h.mu.Unlock()
-
-	h.out.put(map[string]any{"kind": "walked", "walk": wk.ID, "done": done, "of": len(wk.Steps), "end": cur, "discard": x.discard})
-}
-
-// doProbe is the replay entry: drive the prefix, then ask one thing.
+// doProbe is the replay entry: drive the walk, then ask one thing.
 func (h *zzC07Harness) doProbe(wk *zzC07Walk) {
-	x, cur, done := h.runWalk(wk, -1, false, "probe")
-	defer x.cleanup()
+	r, status, got := h.replayWalk(wk)
+	defer r.x.cleanup()
 
-	res := map[string]any{"kind": "probe", "walk": wk.ID, "done": done, "end": cur, "discard": x.discard}
-	if wk.Probe != nil && cur >= 0 {
-		r := x.search(wk.Probe)
-		res["got"] = r
-		res["admissible"] = zzC07Admissible(wk.Probe, &r)
+	res := map[string]any{"kind": "probe", "walk": wk.ID, "status": status, "end": r.cur, "discard": r.x.discard}
+	if wk.Probe != nil && (status == "ok" || len(wk.Steps) == 0) {
+		rep := r.x.search(wk.Probe)
+		res["got"] = rep
+		res["admissible"] = zzC07Admissible(wk.Probe, &rep)
 		res["q"] = wk.Probe
 	}
 
 	if wk.ProbeState {
-		got, _ := x.project(h.in.states[wk.Init].St.Pal)
 		res["state"] = got
-		res["admissible"] = cur >= 0
+		res["admissible"] = status == "ok" || status == "unobservable"
 	}
 
 	h.out.put(res)
@@ -2118,17 +2334,17 @@ func TestZZVerifC07Trace(t *testing.T) {
 				continue
 			}
 
-			_ = x.step(nil, &zzC07Step{Act: "flush"}, "")
+			_ = x.step(nil, &zzC07Step{Act: "flush"})
 			emit("flush", nil)
 		case roll < 982:
-			_ = x.step(nil, &zzC07Step{Act: "rotate"}, "")
+			_ = x.step(nil, &zzC07Step{Act: "rotate"})
 			emit("rotate", nil)
 		case roll < 984:
-			_ = x.step(nil, &zzC07Step{Act: "clear"}, "")
+			_ = x.step(nil, &zzC07Step{Act: "clear"})
 			emit("clear", nil)
 		case roll < 992:
 			enabled, anon = rng.Intn(4) != 0, rng.Intn(3) == 0
-			err := x.step(nil, &zzC07Step{Act: "conf", Args: map[string]any{"en": enabled, "an": anon}}, "")
+			err := x.step(nil, &zzC07Step{Act: "conf", Args: map[string]any{"en": enabled, "an": anon}})
 			if err != nil {
 				t.Fatalf("conf: %v", err)
 			}
@@ -2140,7 +2356,7 @@ func TestZZVerifC07Trace(t *testing.T) {
 				nm = 3
 			}
 
-			err := x.step(nil, &zzC07Step{Act: "restart", Args: map[string]any{"ms": float64(nm)}}, "")
+			err := x.step(nil, &zzC07Step{Act: "restart", Args: map[string]any{"ms": float64(nm)}})
 			if err != nil {
 				t.Fatalf("restart: %v", err)
 			}
